@@ -84,10 +84,81 @@ Qed.
 Lemma lookup_cases s o : lookup s qualifierOrder = Some o -> In (s, o) qualifierOrder.
 Proof. apply lookup_In. Qed.
 
-Lemma lookup_bound s o : lookup s qualifierOrder = Some o -> (1 <= o <= 7)%Z.
+(* The table is generated from the Go source; nothing below depends on its literal numbers,
+   only on their relative order (and equalities) and on which names are listed.  The least
+   and the greatest rank are computed from the table. *)
+Definition rank_lo : Z :=
+  fold_right (fun p m => Z.min (snd p) m)
+             (match qualifierOrder with p :: _ => snd p | [] => 0%Z end) qualifierOrder.
+Definition rank_hi : Z :=
+  fold_right (fun p m => Z.max (snd p) m)
+             (match qualifierOrder with p :: _ => snd p | [] => 0%Z end) qualifierOrder.
+
+Lemma ranks_within :
+  forallb (fun p : bytes * Z => Z.leb rank_lo (snd p) && Z.leb (snd p) rank_hi) qualifierOrder = true.
+Proof. vm_compute. reflexivity. Qed.
+
+Lemma lookup_bound s o : lookup s qualifierOrder = Some o -> (rank_lo <= o <= rank_hi)%Z.
 Proof.
-  intros H. apply lookup_cases in H. unfold qualifierOrder in H. simpl in H.
-  repeat (destruct H as [H|H]; [injection H as _ <-; lia|]). contradiction.
+  intros H. apply lookup_cases in H.
+  pose proof ranks_within as W. rewrite forallb_forall in W. specialize (W _ H).
+  cbn [snd] in W. apply andb_true_iff in W. destruct W as [W1 W2].
+  apply Z.leb_le in W1. apply Z.leb_le in W2. split; assumption.
+Qed.
+
+(* The reference ranking of the listed names (Maven: alpha < beta < milestone < rc < snapshot <
+   release < sp, with the aliases a, b, m, cr and ga/final/release).  [ranks_iso] says that
+   the generated table lists exactly these names and that its numbers order them as the
+   reference ranks do: equal reference ranks <-> equal numbers, smaller <-> smaller.  Any
+   order-preserving renumbering of the Go map satisfies it; swapping two ranks does not. *)
+Definition ref_ranks : list (bytes * N) :=
+  [ ($"alpha", 1); ($"a", 1); ($"beta", 2); ($"b", 2); ($"milestone", 3); ($"m", 3);
+    ($"rc", 4); ($"cr", 4); ($"snapshot", 5);
+    ([], 6); ($"ga", 6); ($"final", 6); ($"release", 6); ($"sp", 7) ]%N.
+
+Definition comparison_eqb (a b : comparison) : bool :=
+  match a, b with Eq, Eq | Lt, Lt | Gt, Gt => true | _, _ => false end.
+
+Lemma comparison_eqb_eq a b : comparison_eqb a b = true -> a = b.
+Proof. destruct a; destruct b; simpl; congruence. Qed.
+
+Definition ranks_iso (table : list (bytes * Z)) : bool :=
+  forallb (fun p => mem (fst p) (map fst ref_ranks)) table &&
+  forallb (fun r1 : bytes * N =>
+    forallb (fun r2 : bytes * N =>
+      match lookup (fst r1) table, lookup (fst r2) table with
+      | Some o1, Some o2 => comparison_eqb (Z.compare o1 o2) (N.compare (snd r1) (snd r2))
+      | _, _ => false
+      end) ref_ranks) ref_ranks.
+
+Lemma qualifierOrder_ranks_iso : ranks_iso qualifierOrder = true.
+Proof. vm_compute. reflexivity. Qed.
+
+Lemma ranks_iso_spec table s1 n1 s2 n2 :
+  ranks_iso table = true -> In (s1, n1) ref_ranks -> In (s2, n2) ref_ranks ->
+  exists o1 o2, lookup s1 table = Some o1 /\ lookup s2 table = Some o2 /\
+                (o1 ?= o2)%Z = (n1 ?= n2)%N.
+Proof.
+  unfold ranks_iso. intros H I1 I2. apply andb_true_iff in H. destruct H as [_ H].
+  rewrite forallb_forall in H. specialize (H _ I1). rewrite forallb_forall in H.
+  specialize (H _ I2). cbn [fst snd] in H.
+  destruct (lookup s1 table) as [o1|]; [|discriminate].
+  destruct (lookup s2 table) as [o2|]; [|discriminate].
+  exists o1, o2. repeat split. apply comparison_eqb_eq, H.
+Qed.
+
+(* a name has a rank in the table iff it is one of the reference names *)
+Lemma ranks_iso_listed table s :
+  ranks_iso table = true -> (lookup s table <> None <-> In s (map fst ref_ranks)).
+Proof.
+  unfold ranks_iso. intros H. apply andb_true_iff in H. destruct H as [M H]. split.
+  - intros L. destruct (lookup s table) as [o|] eqn:E; [|contradiction].
+    apply lookup_In in E. rewrite forallb_forall in M. specialize (M _ E). cbn [fst] in M.
+    unfold mem in M. apply existsb_exists in M. destruct M as [k [Ik Ek]].
+    apply beq_eq in Ek. subst k. exact Ik.
+  - intros I. apply in_map_iff in I. destruct I as [[k n] [E I]]. cbn [fst] in E. subst k.
+    rewrite forallb_forall in H. specialize (H _ I). rewrite forallb_forall in H.
+    specialize (H _ I). cbn [fst] in H. destruct (lookup s table); [discriminate|discriminate H].
 Qed.
 
 (* ---------- class A: no unknown qualifier ---------- *)
@@ -107,13 +178,16 @@ Definition elem_known (e : elem) : bool :=
 
 Definition no_unknown (c : core) : bool := forallb elem_known c.
 
-(* alpha < beta < milestone < rc < snapshot < numbers < "" < sp *)
+(* alpha < beta < milestone < rc < snapshot < numbers < "" < sp.
+   The key is (class, rank-or-number): class 0 = qualifiers below the numbers, 1 = numbers,
+   2 = "" and sp (above the numbers), 3 = not in the table.  Within a class of qualifiers the
+   table's own rank decides, so no literal rank number appears here. *)
 Definition keyA (e : elem) : Z * Z :=
   match e with
-  | Num z => (6, z)%Z
+  | Num z => (1, z)%Z
   | Str s => match lookup s qualifierOrder with
-             | Some o => if above_numbers s then (o + 1, 0)%Z else (o, 0)%Z
-             | None => (9, 0)%Z
+             | Some o => if above_numbers s then (2, o)%Z else (0, o)%Z
+             | None => (3, 0)%Z
              end
   end.
 
@@ -172,13 +246,15 @@ Definition elem_below (e : elem) : bool :=
 
 Definition no_release_sp (c : core) : bool := forallb elem_below c.
 
-(* alpha < beta < milestone < rc < snapshot < unknown qualifiers (bytewise) < numbers *)
+(* alpha < beta < milestone < rc < snapshot < unknown qualifiers (bytewise) < numbers.
+   Key ((class, rank-or-number), name): class 0 = qualifiers of the table (ordered by the
+   table's own rank), 1 = unknown qualifiers (ordered bytewise), 2 = numbers. *)
 Definition keyB (e : elem) : (Z * Z) * bytes :=
   match e with
-  | Num z => ((11, z)%Z, [])
+  | Num z => ((2, z)%Z, [])
   | Str s => match lookup s qualifierOrder with
-             | Some o => ((o, 0)%Z, [])
-             | None => ((10, 0)%Z, s)
+             | Some o => ((0, o)%Z, [])
+             | None => ((1, 0)%Z, s)
              end
   end.
 
@@ -194,24 +270,15 @@ Proof.
   unfold ecmpB, cmp_on, lex2.
   destruct x as [z1|s1]; destruct y as [z2|s2];
     cbn [compareElements keyB elem_below]; intros Hx Hy.
-  - cbn [fst snd]. change (11 ?= 11)%Z with Eq. cbn [thenc bytes_cmp].
+  - cbn [fst snd]. change (2 ?= 2)%Z with Eq. cbn [thenc bytes_cmp].
     destruct (z1 ?= z2)%Z; reflexivity.
   - apply negb_true_iff in Hy. rewrite Hy.
-    destruct (lookup s2 qualifierOrder) as [o|] eqn:L; cbn [fst snd]; [|reflexivity].
-    apply lookup_bound in L.
-    assert (E : (11 ?= o)%Z = Gt) by (apply Z.compare_gt_iff; lia). rewrite E. reflexivity.
+    destruct (lookup s2 qualifierOrder) as [o|]; reflexivity.
   - apply negb_true_iff in Hx. rewrite Hx.
-    destruct (lookup s1 qualifierOrder) as [o|] eqn:L; cbn [fst snd]; [|reflexivity].
-    apply lookup_bound in L.
-    assert (E : (o ?= 11)%Z = Lt) by (apply Z.compare_lt_iff; lia). rewrite E. reflexivity.
-  - destruct (lookup s1 qualifierOrder) as [o1|] eqn:L1;
-    destruct (lookup s2 qualifierOrder) as [o2|] eqn:L2; cbn [fst snd].
-    + change (0 ?= 0)%Z with Eq. cbn [bytes_cmp]. destruct (o1 ?= o2)%Z; reflexivity.
-    + apply lookup_bound in L1.
-      assert (E : (o1 ?= 10)%Z = Lt) by (apply Z.compare_lt_iff; lia). rewrite E. reflexivity.
-    + apply lookup_bound in L2.
-      assert (E : (10 ?= o2)%Z = Gt) by (apply Z.compare_gt_iff; lia). rewrite E. reflexivity.
-    + reflexivity.
+    destruct (lookup s1 qualifierOrder) as [o|]; reflexivity.
+  - destruct (lookup s1 qualifierOrder) as [o1|];
+    destruct (lookup s2 qualifierOrder) as [o2|]; cbn [fst snd]; try reflexivity.
+    change (0 ?= 0)%Z with Eq. cbn [thenc bytes_cmp]. destruct (o1 ?= o2)%Z; reflexivity.
 Qed.
 
 Theorem cmp_core_tpo_B : TotalPreorderOn (fun c => no_release_sp c = true) cmp_core.
